@@ -285,7 +285,9 @@ def check_edges(case, ctx):
     th = np.linspace(-np.pi, np.pi, nt, endpoint=False)
     fuvw = md['commons'].fuvw
     fr = np.arange(3, n)
-    for edge, x, r in (('Bot', cc.L, cc.r1), ('Top', 0., cc.r2)):
+    # radii of the two edges from the meridian length and the angle (not from the attribute the package derives for itself)
+    r_bot = cc.r2 + cc.L * np.sin(np.deg2rad(case['alphadeg']))
+    for edge, x, r in (('Bot', cc.L, r_bot), ('Top', 0., cc.r2)):
         S = np.zeros((5, nt, n))
         for j in range(3, n):
             e = np.zeros(n)
